@@ -141,7 +141,10 @@ def import_module_from_string(module_name, package_module):
         while len(source_dirs) > 1 and source_dirs[0] == "" and target_dirs:
             source_dirs.pop(0)
             target_dirs.pop()
-        package = ".".join(target_dirs + source_dirs[:-1])
+        # The leading dots have been resolved against `target_dirs`; what's
+        # left is relative to that package.
+        package = ".".join(target_dirs)
+        module_name = "." + ".".join(source_dirs)
     try:
         return importlib.import_module(module_name, package)
     except ImportError as e:
